@@ -978,65 +978,200 @@ def _pauli_missing(cur, seen, lookup, inp):
 
 
 # ------------------------------------------------------------------ trajectories vs density matrix (finite expectation; test level)
-def trajectory_test(run, rng, count):
-    """enumerate ALL draw sequences of the real trajectory simulator (sample_shots is replaced by an oracle
-    stream) and compare sum prob*|psi><psi| with the real density-matrix execution; tolerance 1e-12 ('test')."""
-    from qibo import Circuit, gates
+TRAJ_ARITY = {"H": 1, "S": 1, "RX": 1, "RY": 1, "CNOT": 2, "CZ": 2}
+TRAJ_PARAM = ("RX", "RY")
+
+
+def traj_build(case, dm):
+    from qibo import Circuit
+    opts = default_opts()
+    c = Circuit(case["n"], density_matrix=dm)
+    for d in case["gates"]:
+        c.add(make_channel(opts, d[1], d[2], d[3], k=1) if d[0] == "chan" else make_gate(opts, d))
+    return c
+
+
+def traj_case(case):
+    """sum over ALL draw sequences of prob*|psi><psi| from the real state-vector path (sample_shots replaced by an
+    oracle stream) versus the real density-matrix execution; returns (max abs diff, total probability)"""
+    from qibo import gates
     from qibo.backends.numpy import NumpyBackend
+    n = case["n"]
+    chans = [g for g in traj_build(case, False).queue if isinstance(g, gates.UnitaryChannel)]
+    sizes = [len(ch.gates) + 1 for ch in chans]
+    rho = np.zeros((2 ** n, 2 ** n), dtype=complex)
+    total = 0.0
+    for draws in itertools.product(*[range(s) for s in sizes]):
+        b = NumpyBackend()
+        stream = list(draws)
+        probs_seen = []
+
+        def fake(probabilities, nshots, _s=stream, _p=probs_seen):
+            i = _s.pop(0)
+            _p.append(float(probabilities[i]))
+            return [i]
+        b.sample_shots = fake
+        state = b.zero_state(n)
+        for g in traj_build(case, False).queue:
+            state = g.apply(b, state, n)
+        p = float(np.prod(probs_seen)) if probs_seen else 1.0
+        state = np.asarray(state)
+        rho += p * np.outer(state, state.conj())
+        total += p
+    ref = np.asarray(NumpyBackend().execute_circuit(traj_build(case, True)).state())
+    return float(np.abs(rho - ref).max()), total
+
+
+def trajectory_test(run, rng, count):
+    """exact trajectory average vs density-matrix execution on circuits with complex coherences (H, S, RX, RY, CNOT,
+    CZ), Pauli / unitary-mixture / DEPOLARIZING channels on strict subsets of the qubits (spectators); tolerance
+    1e-12 ('test').  Fixed cases first: depolarizing noise next to a spectator carrying complex coherences."""
     worst = 0.0
+    fixed = [
+        {"n": 2, "gates": [["RX", [0], [0.5]], ["H", [1]], ["chan", "depol", [1], 2], ["RX", [0], [1.5]]]},
+        {"n": 2, "gates": [["H", [0]], ["S", [0]], ["chan", "depol", [1], 3], ["CNOT", [0, 1]]]},
+        {"n": 3, "gates": [["H", [1]], ["S", [1]], ["RX", [0], [0.5]], ["chan", "depol", [0, 2], 1], ["CZ", [1, 2]]]},
+    ]
+    cases = list(fixed)
     for t in range(count):
         n = rng.randint(1, 3)
-        desc = []
-        nch = 0
-        for _ in range(rng.randint(2, 6)):
-            if rng.random() < 0.45 and nch < 4:
-                if rng.random() < 0.5:
-                    desc.append(["chan", "pauli", [rng.randrange(n)], rng.choice([0, 1, 2, 4])])
+        desc, branches = [], 1
+        for _ in range(rng.randint(2, 7)):
+            r = rng.random()
+            if r < 0.45 and branches <= 64:
+                kind = rng.choice(["pauli", "unitary", "depol", "depol"])
+                if kind == "pauli":
+                    i = rng.choice([0, 1, 2, 4])
+                    desc.append(["chan", "pauli", [rng.randrange(n)], i])
+                    branches *= len(default_opts()["pauli"][i]) + 1
+                elif kind == "unitary":
+                    i = rng.choice([0, 2])
+                    desc.append(["chan", "unitary", [rng.randrange(n)], i])
+                    branches *= len(default_opts()["unitary1"][i]) + 1
                 else:
-                    desc.append(["chan", "unitary", [rng.randrange(n)], rng.choice([0, 2])])
-                nch += 1
+                    k = 2 if (n >= 2 and rng.random() < 0.25) else 1
+                    desc.append(["chan", "depol", rng.sample(range(n), k), rng.choice([1, 2, 3])])
+                    branches *= 4 ** k
             else:
-                name = rng.choice([g for g in ["H", "RX", "CNOT", "CZ"] if ARITY[g] <= n])
-                desc.append([name, rng.sample(range(n), ARITY[name])] + ([[rng.choice([0.5, 1.5])]] if name in PARAM else []))
-        case = {"n": n, "gates": desc}
-        opts = default_opts()
-
-        def build(dm):
-            c = Circuit(n, density_matrix=dm)
-            for d in desc:
-                c.add(make_channel(opts, d[1], d[2], d[3], k=1) if d[0] == "chan" else make_gate(opts, d))
-            return c
-        chans = [g for g in build(False).queue if isinstance(g, gates.UnitaryChannel)]
-        sizes = [len(ch.gates) + 1 for ch in chans]
-        rho = np.zeros((2 ** n, 2 ** n), dtype=complex)
-        total = 0.0
-        for draws in itertools.product(*[range(s) for s in sizes]):
-            b = NumpyBackend()
-            stream = list(draws)
-            probs_seen = []
-
-            def fake(probabilities, nshots, _s=stream, _p=probs_seen):
-                i = _s.pop(0)
-                _p.append(float(probabilities[i]))
-                return [i]
-            b.sample_shots = fake
-            c = build(False)
-            state = b.zero_state(n)
-            for g in c.queue:
-                state = g.apply(b, state, n)
-            p = float(np.prod(probs_seen)) if probs_seen else 1.0
-            state = np.asarray(state)
-            rho += p * np.outer(state, state.conj())
-            total += p
-        b = NumpyBackend()
-        ref = np.asarray(b.execute_circuit(build(True)).state())
-        d = float(np.abs(rho - ref).max())
+                name = rng.choice([g for g in TRAJ_ARITY if TRAJ_ARITY[g] <= n])
+                desc.append([name, rng.sample(range(n), TRAJ_ARITY[name])]
+                            + ([[rng.choice([0.5, 1.5, 2.5])]] if name in TRAJ_PARAM else []))
+        cases.append({"n": n, "gates": desc})
+    for case in cases:
+        d, total = traj_case(case)
         worst = max(worst, d, abs(total - 1.0))
         run.case(["trajectory", case])
         if d > 1e-12 or abs(total - 1) > 1e-12:
             run.find(f"trajectory:{hashlib.sha1(json.dumps(case).encode()).hexdigest()[:10]}",
                      "expectation over all trajectories differs from the density-matrix execution",
                      {"case": case, "max_abs_diff": d, "total_probability": total})
+    return worst
+
+
+# ------------------------------------------------------------------ density-matrix execution of NoiseModel.apply output vs Kraus sums
+def embed_op(M, qs, n):
+    """the 2^n x 2^n operator of the 2^k x 2^k matrix M acting on the qubits qs (in that order); harness-owned"""
+    k = len(qs)
+    M = np.asarray(M, dtype=complex).reshape((2,) * (2 * k))
+    rest = [q for q in range(n) if q not in qs]
+    full = np.tensordot(M, np.eye(2 ** (n - k), dtype=complex).reshape((2,) * (2 * (n - k))), 0)
+    perm = []
+    for q in range(n):
+        perm.append(qs.index(q) if q in qs else 2 * k + rest.index(q))
+    for q in range(n):
+        perm.append(k + qs.index(q) if q in qs else 2 * k + (n - k) + rest.index(q))
+    return full.transpose(perm).reshape(2 ** n, 2 ** n)
+
+
+def reference_dm(queue, n):
+    """rho after the queue, from the definition: gates rho -> U rho U^dag; unitary mixtures
+    (1 - sum p) rho + sum p_k U_k rho U_k^dag; Kraus channels sum K rho K^dag -- every operator taken from the gate /
+    channel object and embedded by embed_op (none of the backend's density-matrix fast paths is used)"""
+    from qibo import gates
+    b = backend()
+    rho = np.zeros((2 ** n, 2 ** n), dtype=complex)
+    rho[0, 0] = 1
+    for g in queue:
+        if isinstance(g, gates.M):
+            continue
+        if isinstance(g, gates.Channel):
+            ops = [embed_op(np.asarray(k.matrix(b)), list(k.qubits), n) for k in g.gates]
+            if isinstance(g, gates.UnitaryChannel):
+                new = (1 - sum(g.coefficients)) * rho
+                for p, U in zip(g.coefficients, ops):
+                    new = new + p * (U @ rho @ U.conj().T)
+            else:
+                new = sum(K @ rho @ K.conj().T for K in ops)
+            rho = new
+        else:
+            U = embed_op(np.asarray(g.matrix(b)), list(g.qubits), n)
+            rho = U @ rho @ U.conj().T
+    return rho
+
+
+DM_ERRS = ["pauli", "depol", "depol", "depol", "amp", "phase", "reset", "unitary", "kraus"]
+
+
+def dm_case_diff(case):
+    from qibo.backends.numpy import NumpyBackend
+    c = build_circuit(case)
+    nm, _ = build_noise(case)
+    noisy = nm.apply(c)
+    got = np.asarray(NumpyBackend().execute_circuit(noisy).state())
+    ref = reference_dm(list(noisy.queue), case["n"])
+    return float(np.abs(got - ref).max()), [type(g).__name__ for g in noisy.queue]
+
+
+def gen_dm_case(rng):
+    n = rng.randint(2, 4)
+    gs = []
+    for _ in range(rng.randint(3, 8)):
+        name = rng.choice([g for g in TRAJ_ARITY if TRAJ_ARITY[g] <= n])
+        gs.append([name, rng.sample(range(n), TRAJ_ARITY[name])] + ([[rng.choice([0.5, 1.5, 2.5])]] if name in TRAJ_PARAM else []))
+    D = default_opts()
+    rules = []
+    for _ in range(rng.randint(1, 3)):
+        t = rng.choice(DM_ERRS)
+        if t in ("unitary", "kraus"):
+            err = [t, 1, rng.randrange(len(D[f"{t}1"]))]
+        elif t == "depol":
+            err = [t, rng.choice([1, 2, 3])]
+        else:
+            err = [t, rng.randrange(len(D[t]))]
+        key = rng.choice([None, "H", "S", "RX", "CNOT", "CZ"])
+        q = rng.choice([None, rng.randrange(n), rng.randrange(n)])
+        rules.append({"key": key, "err": err, "qubits": q, "conds": None})
+    return {"n": n, "dm": True, "gates": gs, "customs": [], "rules": rules}
+
+
+def dm_reference_test(run, rng, count):
+    """the density-matrix execution of NoiseModel.apply(circuit) against the Kraus-sum / mixture definition of every
+    inserted channel, on circuits with complex coherences and noise on strict subsets of the qubits ('test', 1e-12).
+    ThermalRelaxationError is left to C04: for t_1 < t_2 its Kraus list and its density-matrix fast path disagree on
+    the unchanged tree (a C04 finding), so it cannot serve as a reference here."""
+    fixed = [{"n": 2, "dm": True, "customs": [], "gates": [["RX", [0], [0.5]], ["H", [1]], ["RX", [0], [1.5]]],
+              "rules": [{"key": "H", "err": ["depol", 2], "qubits": None, "conds": None}]},
+             {"n": 3, "dm": True, "customs": [], "gates": [["H", [0]], ["S", [0]], ["H", [2]], ["CNOT", [2, 1]]],
+              "rules": [{"key": "CNOT", "err": ["depol", 3], "qubits": None, "conds": None}]}]
+    cases = fixed + [gen_dm_case(rng) for _ in range(count)]
+    worst, kinds = 0.0, {}
+    for case in cases:
+        try:
+            d, names = dm_case_diff(case)
+        except Exception as e:
+            run.find(f"dm:raises:{hashlib.sha1(json.dumps(case).encode()).hexdigest()[:10]}",
+                     f"density-matrix execution of the noisy circuit raises {type(e).__name__}: {e}", {"case": case})
+            continue
+        for nme in names:
+            if nme.endswith("Channel"):
+                kinds[nme] = kinds.get(nme, 0) + 1
+        worst = max(worst, d)
+        run.case(["dm_reference", case])
+        if d > 1e-12:
+            run.find(f"dm:{hashlib.sha1(json.dumps(case).encode()).hexdigest()[:10]}",
+                     "density-matrix execution of NoiseModel.apply(circuit) differs from the Kraus-sum definition of its channels",
+                     {"case": case, "max_abs_diff": d, "queue": names})
+    run.notes["dm_reference_channels"] = kinds
     return worst
 
 
@@ -1168,6 +1303,7 @@ def main(run):
     run.notes["rejected_by_constructors"] = REJECTED
     run.notes["stream_pauli"] = pauli_cases(run, rng, n_pauli)
     run.notes["trajectory_worst_abs_diff"] = trajectory_test(run, rng, n_traj)
+    run.notes["dm_reference_worst_abs_diff"] = dm_reference_test(run, rng, 400 if thorough else 120)
     run.notes["ibmq_readout_doc_convention_ok"] = ibmq_readout_convention(run)
     run.notes["ibmq_scalar_readout_multiqubit_measurement_ok"] = ibmq_scalar_readout(run)
     return run.finish(rule=RULE)
@@ -1176,6 +1312,19 @@ def main(run):
 def replay(run, data):
     rp = data.get("replay", {})
     key = data.get("key", "")
+    if key.startswith("trajectory:"):
+        d, total = traj_case(rp["case"])
+        if d > 1e-12 or abs(total - 1) > 1e-12:
+            run.find(key, data.get("what", ""), {"case": rp["case"], "max_abs_diff": d, "total_probability": total})
+        return run.finish(rule="replay of one recorded case")
+    if key.startswith("dm:"):
+        try:
+            d, names = dm_case_diff(rp["case"])
+        except Exception as e:
+            d, names = float("inf"), [f"{type(e).__name__}: {e}"]
+        if d > 1e-12:
+            run.find(key, data.get("what", ""), {"case": rp["case"], "max_abs_diff": d, "queue": names})
+        return run.finish(rule="replay of one recorded case")
     if key.startswith("ibmq:"):
         ibmq_readout_convention(run)
         ibmq_scalar_readout(run)
